@@ -235,6 +235,7 @@ type Gen struct {
 	Alone     int  // > 0: at depth 0 only field Alone-1 is set (Full-style), every other field keeps its zero value
 	WireShape int  // > 0: every wire field gets this buffer pattern (empty / nil buffers in each position)
 	Seed      int64
+	LongNameDen int // random names take a component count from sizeSteps with probability 1/LongNameDen (0 = default 8, < 0 = never)
 	nameCnt    int // names generated so far in the current value
 	NameTarget int // >= 0: only the name with this index gets NameShape (heavy shapes: one position per value, rotating)
 	NameShape int  // > 0: every name gets this shape (component count from sizeSteps / encoded size from nameEncSizes)
@@ -389,6 +390,13 @@ func (g *Gen) nameShape(k int, noDigestTail bool) enc.Name {
 	}
 }
 
+func longDen(d int) int {
+	if d <= 0 {
+		return 8
+	}
+	return d
+}
+
 func (g *Gen) name(noDigestTail bool) enc.Name {
 	if g.NameShape > 0 {
 		idx := g.nameCnt
@@ -396,7 +404,7 @@ func (g *Gen) name(noDigestTail bool) enc.Name {
 		if g.NameTarget < 0 || idx == g.NameTarget {
 			return g.nameShape(g.NameShape, noDigestTail)
 		}
-	} else if g.R.Intn(8) == 0 { // random values too: a component count from the generic size list, short components
+	} else if g.LongNameDen >= 0 && g.R.Intn(longDen(g.LongNameDen)) == 0 { // random values too: a component count from the generic size list, short components
 		return g.nameShape(1+g.R.Intn(len(sizeSteps)), noDigestTail)
 	}
 	l := g.R.Intn(5)
